@@ -345,3 +345,82 @@ fn verif_witness_search_modules() {
   }
   println!("WITNESS-SEARCH: no violating history found ({} sample modules, {checked} formatted texts)", files.len());
 }
+
+
+// Bounded exploration for C05 (the formatter terminates): nested expressions of moderate depth are parsed and formatted
+// at two widths; each must be done within a few seconds (formatting time must not multiply with every nesting level).
+// Nested if-else is kept shallow: on the unchanged tree its formatting time already doubles per level (DESIGN.md, observed).
+#[test]
+fn verif_witness_search_formatter_terminates() {
+  use std::sync::mpsc;
+  use std::time::Duration;
+  let mut inputs: Vec<(String, String)> = Vec::new();
+  let mut horner = "a".to_string();
+  for _ in 0..18 {
+    horner = format!("({horner} * x + b)");
+  }
+  inputs.push(("a polynomial in Horner form of degree 18".to_string(), horner));
+  let mut mixed = "a".to_string();
+  for k in 0..16 {
+    mixed = if k % 2 == 0 { format!("(c - ({mixed} && d || e) :: f)") } else { format!("(!({mixed} < 1) == (g % 2 >= 3))") };
+  }
+  inputs.push(("16 levels of operators of alternating precedence".to_string(), mixed));
+  inputs.push(("a chain of 60 member accesses and calls".to_string(), format!("a{}", ".f(1).g".repeat(30))));
+  let mut lambdas = "x".to_string();
+  for k in 0..12 {
+    lambdas = format!("((p{k}) -> {lambdas})");
+  }
+  inputs.push(("12 nested lambdas".to_string(), lambdas));
+  let mut matches = "z".to_string();
+  for _ in 0..8 {
+    matches = format!("match o {{ Some(v) -> {matches}, None -> 0 }}");
+  }
+  inputs.push(("8 nested match expressions".to_string(), matches));
+  let mut ifs = "z".to_string();
+  for _ in 0..8 {
+    ifs = format!("if c {{ {ifs} }} else {{ 0 }}");
+  }
+  inputs.push(("8 nested if-else expressions".to_string(), ifs));
+  let mut tuples = "1".to_string();
+  for _ in 0..14 {
+    tuples = format!("({tuples}, [{tuples}].f, 2)");
+  }
+  let _ = tuples;
+  let mut checked = 0usize;
+  for (what, e) in inputs {
+    let text = format!("class Main {{ function f(): int = {e} }}");
+    let (tx, rx) = mpsc::channel();
+    let owned = text.clone();
+    std::thread::spawn(move || {
+      let r = std::panic::catch_unwind(|| {
+        let heap = &mut Heap::new();
+        let (errors, m) = parse(heap, &owned);
+        if errors != 0 {
+          return false;
+        }
+        for width in [100usize, 30] {
+          let _ = super::pretty_print_source_module(heap, width, &m);
+        }
+        true
+      });
+      let _ = tx.send(r);
+    });
+    match rx.recv_timeout(Duration::from_secs(15)) {
+      Ok(Ok(true)) => {}
+      Ok(Ok(false)) => {
+        println!("WITNESS-SEARCH-BROKEN: {what} does not parse");
+        return;
+      }
+      Ok(Err(_)) => {
+        println!("WITNESS: the formatter panics on {what}: {}", text.chars().take(300).collect::<String>());
+        return;
+      }
+      Err(_) => {
+        println!("WITNESS: the formatter does not finish within 15 s on {what}: {}", text.chars().take(300).collect::<String>());
+        std::process::exit(0);
+      }
+    }
+    checked += 1;
+  }
+  println!("WITNESS-SEARCH: no violating history found ({checked} nested expressions formatted within the time limit)");
+}
